@@ -334,7 +334,12 @@ def _nop(si: int, mask: int, as_dict: bool, prior: int = 0) -> bool:
     fs = instance(eng, nop_regexes=pats or None)
     conn = fs.connect(database="db1", schema="s1")
     # statements executed earlier in the session (they rewrite to / share fakesnow's internal no-op statement)
-    PRIOR = [[], ["comment on table t1 is 'first'", "alter table t1 set comment = 'second'"], ["set v9 = 1", "alter table t1 cluster by (a)"]]
+    PRIOR = [[], ["comment on table t1 is 'first'", "alter table t1 set comment = 'second'"], ["set v9 = 1", "alter table t1 cluster by (a)"], ["alter table t1 set comment = 'first'", "comment on table t1 is 'second'"]]
+    # process-level state left by ANY of the prefixes must be present in every path (and in the replay process)
+    for pre in PRIOR:
+        c0 = instance(std_engine()).connect(database="db1", schema="s1")
+        for q in pre:
+            c0.cursor().execute(q)
     for q in PRIOR[prior]:
         conn.cursor().execute(q)
     base, w0, snap0 = len(eng.log), len(eng.writes), eng.user_snapshot()
@@ -376,14 +381,41 @@ def _nop(si: int, mask: int, as_dict: bool, prior: int = 0) -> bool:
     encodes=["fakesnow.cursor.FakeSnowflakeCursor.execute (nop_regexes short-circuit)", "fakesnow.instance.FakeSnow.connect (option plumbing)"],
     bounds="every subset of 5 patterns (anchored, unanchored, with \\s, with $, reaching into a substituted parameter) x 10 statements "
     "(matching in a different letter case, matching only after parameter substitution, containing pattern text away from the start, "
-    "not matching) x tuple/dict cursor x three session prefixes (fresh; COMMENT ON TABLE + ALTER SET COMMENT earlier; SET + CLUSTER BY earlier)",
+    "not matching) x tuple/dict cursor x four session prefixes (fresh; COMMENT ON + ALTER SET COMMENT earlier, in both orders; SET + CLUSTER BY earlier)",
     timeout=(300, 600),
     stubs=["K1/K2 vf.duckstub.Engine (statements unknown to the engine such as CALL raise a parser/catalog error there)"],
     shards=(10, 10),
 )
 def nop_regexes(si: int, mask: int, as_dict: bool, prior: int) -> bool:
     """
-    pre: 0 <= si < 10 and 0 <= mask < 32 and 0 <= prior <= 2 and (SHARD < 0 or si == SHARD)
+    pre: 0 <= si < 10 and 0 <= mask < 32 and 0 <= prior <= 3 and (SHARD < 0 or si == SHARD)
     post: _
     """
-    return done(fast.native(_nop, fast.pick(si, 10), fast.pick(mask, 32), bool(fast.pick(as_dict, 2)), fast.pick(prior, 3)))
+    return done(fast.native(_nop, fast.pick(si, 10), fast.pick(mask, 32), bool(fast.pick(as_dict, 2)), fast.pick(prior, 4)))
+
+
+# ------------------------------------------------------------------ independence of what happened before (shared harness)
+import obligations.shared_independence as _indep  # noqa: E402
+
+_IND_PRIORS = (4, 5)
+
+
+@ob(
+    "C16.noop_statements_leave_nothing_behind",
+    encodes=["fakesnow.cursor.FakeSnowflakeCursor.execute/_transform/_execute/description/fetch*", "fakesnow.conn / fakesnow.variables / fakesnow.transforms (any state kept between statements)"],
+    bounds="prior activity: a nop_regexes match or tag / cluster-by no-ops; then one of " + str(len(_indep.SUBJECTS)) + " statements (queries, DML, DDL with metadata, COMMENT, "
+    "DESCRIBE, SHOW, USE, SET, MERGE, seeded RANDOM, BEGIN, a nop_regexes match, two failing statements, TRUNCATE) on the same or another cursor, tuple or "
+    "dict: SQL reaching the engine, rows, rowcount, description names, error, sqlstate, session context and the statement's own effect on catalog, "
+    "metadata and variables equal those on a fresh identical session",
+    timeout=(300, 600),
+    stubs=["K1/K2/K6 vf.duckstub.Engine"],
+    shards=(11, 11),
+)
+def independence(si: int, pk: int, as_dict: bool, same_cursor: bool) -> bool:
+    """
+    pre: 0 <= si < len(_indep.SUBJECTS) and 0 <= pk < len(_IND_PRIORS) and (SHARD < 0 or si % 11 == SHARD)
+    post: _
+    """
+    from vf import fast as _f
+
+    return done(_f.native(_indep.independent, _f.pick(si, len(_indep.SUBJECTS)), _IND_PRIORS[_f.pick(pk, len(_IND_PRIORS))], bool(_f.pick(as_dict, 2)), bool(_f.pick(same_cursor, 2))))
